@@ -318,7 +318,7 @@ def run_case(case):
     except Violation:
         raise
     except Exception as e:  # noqa
-        ill = type(e).__name__ == "PreconditionerValueError" and (obs.nonfinite_from_finite or cfg["epsilon"] < 1e-4 * run["grad_scale"] ** 2)
+        ill = c01.classify_abort(e, run, obs) is not None
         tol = type(e).__name__ == "ValueError" and "exceeded the allowed tolerance" in str(e) and cfg["precond"]["solver"]["type"] in ("newton", "ho")
         if ill or tol:
             counters["aborted_numerics"] = 1
